@@ -707,7 +707,9 @@ def m_hasher_finish(c, h):
     if n == 0:
         return BV(64, 0x1234)
     ip.env.setdefault('hash_inputs', []).append(list(hs.items))
-    return bv(64, hash_uf(n)(*[x.z() for x in hs.items]))
+    r = bv(64, hash_uf(n)(*[x.z() for x in hs.items]))
+    ip.env['last_hash_value'] = r
+    return r
 
 
 @model(r'^' + SETT + r'::<.*>::(first|last)$')
